@@ -225,8 +225,10 @@ for _d in (0, 1):
                 props=["C12", "C13", "C14", "C01"], stubs=["fmt", ENTRY, GP, HV], unwind=6,
                 features=("alloc",), domain="fully symbolic record (track %s) x symbolic position report x receiver x range (non-NaN) x arbitrary pairing / distance results; clause groups mask %d" % ("empty" if _ts == "true" else "absent", _lv),
                 functions=TRK_FN, timeout=900, tier="quick" if ((_d == 0 and _ts == "false") or (_d == 1 and _ts == "false" and _ln == "pub")) else "thorough")
-    add("trk_ident_" + _n, "rsadsb_common", T + "obl_action_ident", args=_b, props=["C12", "C14", "C01"], stubs=["fmt", ENTRY], unwind=6,
-        features=("alloc",), domain="fully symbolic record x identification report", functions=TRK_FN, timeout=900)
+    add("trk_ident_" + _n, "rsadsb_common", T + "obl_action_ident", args=_b + ", false", props=["C12", "C14", "C01"], stubs=["fmt", ENTRY], unwind=6,
+        features=("alloc",), domain="fully symbolic record (no callsign yet) x identification report", functions=TRK_FN, timeout=900)
+    add("trk_ident2_" + _n, "rsadsb_common", T + "obl_action_ident", args=_b + ", true", props=["C14"], stubs=["fmt", ENTRY], unwind=6,
+        features=("alloc",), domain="fully symbolic record that already has a callsign x identification report (latest wins)", functions=TRK_FN, timeout=900)
     add("trk_vel_" + _n, "rsadsb_common", T + "obl_action_velocity", args=_b, props=["C12", "C14", "C01"], stubs=["fmt", ENTRY, CALC], unwind=6,
         features=("alloc",), domain="fully symbolic record x velocity report with arbitrary derived velocity", functions=TRK_FN, timeout=900)
     for _w in (0, 1, 2):
